@@ -118,7 +118,7 @@ func init() {
 		"sms_setup": 2, "sms_confirm": 2, "totp_remove": 1, "sms_remove": 1, "probe": 6, "drop_session": 5, "copy_cookie": 2, "stale_cookie": 3,
 		"set_cookie": 1, "advance": 4, "op_lock": 1, "op_unlock": 1, "op_update_password": 1, "replay": 4, "recovery_regen": 1,
 		"everify_start": 1, "everify_end": 1, "login_get": 1, "app_session_put": 1, "recover_end_get": 1, "op_start_confirm": 1,
-		"totp_setup_get": 1, "sms_setup_get": 1, "restart": 2,
+		"totp_setup_get": 1, "sms_setup_get": 1, "restart": 2, "second_site": 1,
 	}
 	loginTemplates := []string{"login_ok", "remember_cycle", "recover_flow", "register_flow", "oauth_flow", "otp_flow", "fail_burst", "forged_cookie", "pw_near_miss"}
 	register(&Profile{
